@@ -43,6 +43,8 @@ INVS = ['TypeOK', 'Bounded', 'ValidAdmitted', 'SuccessIsServers',
         'EachCredentialOnce', 'KeyOrder', 'AgentFirst', 'SignedOnlyAfterPkOk',
         'NoCredentialLeak', 'DisabledUnused']
 ALL = '{"order", "keys", "rsa", "kbd", "mix", "change", "partial", "odd"}'
+TABLE_SPLIT = ['{"order", "kbd", "mix"}',
+               '{"keys", "rsa", "change", "partial", "odd"}']
 WORKERS = 4
 REPLAY_PROCS = 4
 
@@ -70,12 +72,19 @@ def write_cfg(name, consts, invariants, properties=()):
     return name
 
 
-def tlc_job(tag, consts, invariants, workers=WORKERS, properties=()):
+# short runs on a shared machine: few GC threads; C1 only unless the run is long
+JVM_LIGHT = {'JAVA_TOOL_OPTIONS':
+             '-XX:ParallelGCThreads=2 -XX:TieredStopAtLevel=1'}
+JVM_LONG = {'JAVA_TOOL_OPTIONS': '-XX:ParallelGCThreads=2'}
+
+
+def tlc_job(tag, consts, invariants, workers=WORKERS, properties=(),
+            jvm=JVM_LIGHT):
     """Start-to-finish TLC run (thread-safe: own cfg, own metadir)."""
     cfg = write_cfg(f'_{tag}.cfg', consts, invariants, properties)
     try:
         return tlc.run(SPEC, 'AuthClient', cfg, tag, timeout=1500,
-                       workers=workers)
+                       workers=workers, env=jvm, java_heap='3g')
     finally:
         os.remove(os.path.join(SPEC, cfg))
         tlc.cleanup(tag)
@@ -138,38 +147,6 @@ def sensitivity(quick):
     return runs
 
 
-def shape(row):
-    """what kind of dialogue: the sequence of event kinds + outcome"""
-    return (row['cfg']['sec'], tuple(e['k'] for e in row['dlg']), row['out'])
-
-
-def select(rows, limit, rnd):
-    """Rows to replay: the small sections completely, one row per (section,
-    dialogue shape, outcome) of the others, then a seeded shuffle of the
-    rest, section by section in turn."""
-    if limit is None or len(rows) <= limit:
-        return list(rows)
-    order = list(rows)
-    rnd.shuffle(order)
-    seen, first, rest = set(), [], {}
-    for r in order:
-        s = shape(r)
-        if r['cfg']['sec'] in ('rsa', 'odd', 'mix'):    # small: all of them
-            first.append(r)
-        elif s not in seen:
-            seen.add(s)
-            first.append(r)
-        else:
-            rest.setdefault(r['cfg']['sec'], []).append(r)
-    out = first[:limit]
-    secs = sorted(rest)
-    while len(out) < limit and any(rest[s] for s in secs):
-        for s in secs:
-            if rest[s] and len(out) < limit:
-                out.append(rest[s].pop())
-    return out
-
-
 def ev_list(e):
     """specification event record -> the driver's event list"""
     k = e['k']
@@ -208,8 +185,11 @@ def run(ctx, quick):
     #         the table (oracle rule; the rule as coded for the rsa section)
     pool = ThreadPoolExecutor(max_workers=4)
     try:
-        f_tab = pool.submit(tlc_job, 'C05c_tab', dict(Tier=f'"{tier}"'),
-                            INVS + ['EmitRow'], 1)
+        jvm = JVM_LIGHT if quick else JVM_LONG
+        f_tabs = [pool.submit(tlc_job, f'C05c_tab{i}',
+                              dict(Tier=f'"{tier}"', Sections=secs),
+                              INVS + ['EmitRow'], 1, (), jvm)
+                  for i, secs in enumerate(TABLE_SPLIT)]
         f_coded = pool.submit(tlc_job, 'C05c_coded',
                               dict(Tier=f'"{tier}"', AsCoded='TRUE',
                                    Sections='{"rsa"}'),
@@ -218,41 +198,50 @@ def run(ctx, quick):
         f_live = pool.submit(tlc_job, 'C05c_live',
                              dict(Tier=f'"{tier}"', Sections=ALL if not quick
                                   else '{"keys", "rsa", "mix", "odd"}'),
-                             [], 2, ['Terminates'])
-        res = f_tab.result()
-        ctx.require_tlc_ok(f'AuthClient table + invariants Tier={tier}', res)
-        rows = parse_rows(res.output)
-        ctx.require(len(rows) > (3000 if quick else 15000),
-                    f'AuthClient table has only {len(rows)} rows')
-        res_c = f_coded.result()
-        ctx.require_tlc_ok('AuthClient rsa section, rule as coded', res_c)
-        coded = {cfg_key(r['cfg']): r for r in parse_rows(res_c.output)}
+                             [], 2, ['Terminates'], jvm)
         jobs = [(tag, consts, inv,
                  pool.submit(tlc_job, tag, consts, [inv], 1))
                 for tag, consts, inv in sensitivity(quick)]
 
-        # ---- 2. rows against the real client ----
+        # ---- 2. rows against the real client (each part of the table is
+        #         replayed as soon as TLC has produced it) ----
         budget = 13 if quick else 220       # seconds of replay
-        chosen = select(rows, None, rnd)
-        rnd.shuffle(chosen)
-        chosen.sort(key=lambda r: r['cfg']['sec'] not in
-                    ('rsa', 'odd', 'mix'))  # the small sections first
-        tasks = []
-        for row in chosen:
-            real_ok = A.real_expressible(row['cfg'])
-            backends = ['real'] if real_ok else ['raw']
-            if real_ok and rnd.random() < 0.15:
-                backends.append('raw')
-            tasks.append((row['cfg'], backends))
-        n = 0
-        t1 = time.time()
-        for row, task, observations in zip(
-                chosen, tasks, procs.imap(A.replay_task, tasks, chunksize=8)):
-            n += 1
-            judge(ctx, A, row, coded.get(cfg_key(row['cfg'])), n, task[1],
-                  observations)
-            if time.time() - t1 > budget:
-                break
+        rows, n, spent = [], 0, 0.0
+        coded = None
+        for secs, fut in zip(TABLE_SPLIT, f_tabs):
+            res = fut.result()
+            ctx.require_tlc_ok(f'AuthClient table + invariants Tier={tier} '
+                               f'{secs}', res)
+            part = parse_rows(res.output)
+            rows += part
+            if coded is None:
+                res_c = f_coded.result()
+                ctx.require_tlc_ok('AuthClient rsa section, rule as coded',
+                                   res_c)
+                coded = {cfg_key(r['cfg']): r
+                         for r in parse_rows(res_c.output)}
+            rnd.shuffle(part)
+            part.sort(key=lambda r: r['cfg']['sec'] not in
+                      ('rsa', 'odd', 'mix'))    # the small sections first
+            tasks = []
+            for row in part:
+                real_ok = A.real_expressible(row['cfg'])
+                backends = ['real'] if real_ok else ['raw']
+                if real_ok and rnd.random() < (0.15 if quick else 0.5):
+                    backends.append('raw')
+                tasks.append((row['cfg'], backends))
+            t1 = time.time()
+            for row, task, observations in zip(
+                    part, tasks,
+                    procs.imap(A.replay_task, tasks, chunksize=8)):
+                n += 1
+                judge(ctx, A, row, coded.get(cfg_key(row['cfg'])), n,
+                      task[1], observations)
+                if spent + time.time() - t1 > budget:
+                    break
+            spent += time.time() - t1
+        ctx.require(len(rows) > (3000 if quick else 15000),
+                    f'AuthClient table has only {len(rows)} rows')
         procs.terminate()
         ctx.traces_validated(n)
         ctx.coverage['authclient_rows'] = len(rows)
